@@ -353,6 +353,28 @@ def guard_coherence(fx, ck, name="G5b.guard-coherence", prefix=""):
                                 break
                 if not own:
                     continue
+                # G5c: a register file the aggregate takes over (a Vec<JsValue> field) is rooted through the aggregate's own guard: some
+                # `own_guard.guard(obj)` in this function guards an object that comes out of the same source as that field
+                for i, o in enumerate(ops):
+                    if o[0] not in ("c", "m") or i in own_ops or "Vec<value::JsValue>" not in fx.tys(f.locals[o[1][0]]).replace("std::vec::", ""):
+                        continue
+                    src = ancestors(f, o[1][0]) - gl
+                    # only state at rest that is being brought back to life: the register file comes out of a `Saved*` record, which holds no guard of
+                    # its own (a live frame's registers travel together with the guard that already roots them; fresh files hold no objects)
+                    if not any("Saved" in fx.tys(f.locals[l]) for l in src):
+                        continue
+                    rooted = False
+                    for b2, t2 in f.calls():
+                        if (t2[1].get("d") or "").endswith("Guard::<T>::guard") and len(t2[2]) >= 2 and t2[2][0][0] in ("c", "m") and t2[2][1][0] in ("c", "m"):
+                            if ancestors(f, t2[2][0][1][0]) & own and ancestors(f, t2[2][1][1][0]) & src:
+                                rooted = True
+                    fld = fields[i] if i < len(fields) else str(i)
+                    ck.instance(name, "%s: %s.%s (register file) rooted through the aggregate's guard" % (p, s[2][1].get("p", "?").split("::")[-1], fld), F.short_span(s[3]), ok=rooted)
+                    if not rooted:
+                        ck.finding(name, "%s/%s/%s.%s/unrooted" % (name, p, s[2][1].get("p", "?").split("::")[-1], fld), F.short_span(s[3]),
+                                   "`%s` builds a `%s` that takes over the register file `%s` without guarding its objects in the guard the structure keeps: they are rooted, "
+                                   "if at all, by a neighbour's guard and lose the root when that guard is released (a caller frame's registers after the resumed callee returns)"
+                                   % (p, s[2][1].get("p", "?").split("::")[-1], fld))
                 for i, o in enumerate(ops):
                     if o[0] not in ("c", "m"):
                         continue
